@@ -293,4 +293,34 @@ def opsLeaves : List Op → List Val
   | [] => []
   | o :: os => opLeaves o ++ opsLeaves os
 
+/-! ### std's `write_all` over the harness's sinks (stand-alone: `flush` above hands a whole slice over) -/
+
+
+/-- The harness's sink: bytes received so far and number of `write` calls answered. -/
+structure SinkSt where
+  data : ByteArray
+  calls : Nat
+
+/-- One `Write::write` call on a sink that answers every `j`-th call (`j > 0`) with
+    `ErrorKind::Interrupted` and otherwise accepts at most `k` bytes (`k = 0`: everything).
+    `none` = interrupted, `some n` = `Ok(n)`. -/
+def sinkWrite (k j : Nat) (st : SinkSt) (buf : ByteArray) : SinkSt × Option Nat :=
+  let calls := st.calls + 1
+  if j > 0 ∧ calls % j = 0 then (⟨st.data, calls⟩, none)
+  else
+    let n := if k = 0 then buf.size else min buf.size k
+    (⟨st.data ++ buf.extract 0 n, calls⟩, some n)
+
+/-- std's provided `Write::write_all`: `while !buf.is_empty() { match self.write(buf) { Ok(0) => return
+    Err(WriteZero), Ok(n) => buf = &buf[n..], Err(Interrupted) => {}, Err(e) => return Err(e) } }`
+    (the writer `unwrap`s the result: `panic:unwrap`). -/
+def writeAll (k j : Nat) : Nat → SinkSt → ByteArray → Except Panic SinkSt
+  | 0, _, _ => .error .fuel
+  | fuel + 1, st, buf =>
+    if buf.size = 0 then .ok st
+    else match sinkWrite k j st buf with
+      | (st', none) => writeAll k j fuel st' buf
+      | (_, some 0) => .error .unwrap
+      | (st', some n) => writeAll k j fuel st' (buf.extract n buf.size)
+
 end Rlib.Writer
